@@ -292,6 +292,8 @@ kl_pairs(const FanProjData& data, const FanProjData& est, double thr)
 struct Stats
 {
   long configs = 0, gap_configs = 0, bins = 0, entries = 0, block_skipped = 0, geo_skipped = 0, kl_runs = 0;
+  long dp_sinograms_oblique = 0;
+  long wide_configs = 0, wide_block = 0, wide_geo = 0, wide_below_threshold = 0, wide_big = 0, dp_wide = 0;
   long dp_configs = 0, dp_sinograms = 0, dp_entries = 0, mcf_configs = 0, mcf_bins = 0, ml_runs = 0, block_same_block = 0, geo_odd = 0;
 } g_stats;
 
@@ -978,6 +980,188 @@ run_config(vh::Rng& rng, const Cfg& c, bool thorough)
                          eg(ra, a, rb, b), eg2(ra, a, rb, b)));
       });
     }
+
+  // ------------------------------------------------------------------------------------ wide dynamic range (round-4 extension)
+  // The cases above use flat models (1..200) and factors of order 1: there the `find_max()/10000` threshold of iterate_geo_norm /
+  // iterate_block_norm never decides anything.  Here: a compact source (model decaying by 2^-step per tangential offset from the fan
+  // centre and by 4 per ring difference: 1e5..1e8 between classes; optionally exactly 0 at the fan edge), factors k/8 * 2^-e with
+  // e = 0..26 (exponentially decaying), some factors exactly 0 (measured class sum 0 with a positive model sum), and - for block
+  // factors - sometimes one factor >= 16384 on a class far below the threshold (the one case in which the guard returns 0).
+  // All scalings are powers of two: the data are still exactly factor * model.
+  {
+    const int md = fan.get_max_delta();
+    ++g_stats.wide_configs;
+    const int step = std::max(1, (rng.range(0, 2) == 0 ? 18 : rng.coin() ? 26 : 40) / std::max(hp, 1));
+    const bool zero_edge = hp >= 1 && rng.range(0, 2) == 0;
+    FanProjData model_w = model;
+    for_canon(model, [&](int ra, int a, int rb, int b) {
+      const int o = std::abs(b - a - Np / 2);
+      const float v = (zero_edge && o == hp) ? 0.F : std::ldexp(model(ra, a, rb, b), -(o * step + 2 * (rb - ra)));
+      model_w(ra, a, rb, b) = v;
+    });
+    auto wide_factor = [&]() -> float {
+      if (rng.range(0, 7) == 0)
+        return 0.F;
+      return std::ldexp(rng.range(4, 12) / 8.F, -rng.range(0, 26));
+    };
+    const std::string wctx = ctx + str(" [wide: model * 2^-(%d*|tang offset| + 2*ring diff)%s]", step, zero_edge ? ", 0 at the fan edge" : "");
+
+    // efficiencies (iterate_efficiencies has no threshold, only `fan sum == 0 -> 0`): fixed point with efficiencies k/8 * 2^-e
+    {
+      DetectorEfficiencies eff_w(IndexRange2D(Rp, Np));
+      for (int r = 0; r < Rp; ++r)
+        for (int a = 0; a < Np; ++a)
+          eff_w[r][a] = std::ldexp(rng.range(4, 12) / 8.F, -rng.range(0, 13));
+      FanProjData dw = model_w;
+      apply_efficiencies(dw, eff_w, true);
+      Array<2, float> sw(IndexRange2D(Rp, Np));
+      make_fan_sum_data(sw, dw);
+      DetectorEfficiencies e2 = eff_w;
+      iterate_efficiencies(e2, sw, model_w);
+      const int nterms = (2 * md + 1) * (2 * hp + 1);
+      for (int ra = 0; ra < Rp; ++ra)
+        for (int a = 0; a < Np; ++a)
+          oracle(close_rel(e2[ra][a], eff_w[ra][a], 4. * (Rp * Np) * (nterms + 3) * 5.97e-8), "fixed-point-eff-wide",
+                 wctx + str(" detector (%d,%d): efficiency %g became %g although data = eff*eff*model", ra, a, eff_w[ra][a], e2[ra][a]));
+      emit("fan" + dump_fan(model_w), "ok");
+      emit("eff" + dump_tab(eff_w), "ok");
+      emit("sums" + dump_tab(sw), "ok");
+      emit(Rp * Np <= 9 ? "itereff rat" : "itereff flt", dump_tab(e2).substr(1));
+    }
+
+    if (block_in_range)
+      {
+        BlockData3D blk_w(nab, ntb, nab - 1, ntb - 1), mbw(nab, ntb, nab - 1, ntb - 1), ebw(nab, ntb, nab - 1, ntb - 1);
+        fill_sym(blk_w, wide_factor);
+        FanProjData dw = model_w;
+        apply_block_norm(dw, blk_w, true);
+        make_block_data(mbw, dw);
+        // sometimes one factor >= 16384 on a class whose measured sum stays far below find_max()/10000 (the largest model class gets
+        // a factor of order 1): the one case in which the guard must return 0 (correspondence with the model)
+        bool big = false;
+        if (mbw.find_max() > 0 && rng.coin())
+          {
+            BlockData3D mmw(nab, ntb, nab - 1, ntb - 1);
+            make_block_data(mmw, model_w);
+            const float mmx = mmw.find_max();
+            std::vector<C4> low, top;
+            for_canon(blk_w, [&](int ra, int a, int rb, int b) {
+              if (!(rb > ra || a < b % ntb))
+                return;
+              if (mmw(ra, a, rb, b) == mmx)
+                top.push_back(C4(ra, a, rb, b));
+              else if (mmw(ra, a, rb, b) > 0 && mmw(ra, a, rb, b) * 49152.F * 4.0e4F < mmx * 0.5F)
+                low.push_back(C4(ra, a, rb, b));
+            });
+            auto set_blk = [&](const C4& q, float f) {
+              blk_w(std::get<0>(q), std::get<1>(q), std::get<2>(q), std::get<3>(q)) = f;
+              if (std::get<0>(q) == std::get<2>(q))
+                blk_w(std::get<0>(q), std::get<3>(q) % ntb, std::get<0>(q), std::get<1>(q)) = f;
+            };
+            if (!low.empty() && !top.empty())
+              {
+                set_blk(top[0], rng.range(4, 12) / 8.F);
+                set_blk(low[rng.range(0, static_cast<int>(low.size()) - 1)], rng.range(4, 12) / 8.F * 32768.F);
+                big = true;
+                dw = model_w;
+                apply_block_norm(dw, blk_w, true);
+                make_block_data(mbw, dw);
+              }
+          }
+        if (mbw.find_max() > 0)
+          {
+            ++g_stats.wide_block;
+            emit(str("bdims %d %d %d %d", nab, ntb, nab - 1, ntb - 1), "ok");
+            emit("blk" + dump_fan(blk_w), "ok");
+            emit("fan" + dump_fan(model_w), "ok");
+            emit("appblk 1", dump_fan(dw).substr(1));
+            emit("fan" + dump_fan(dw), "ok");
+            emit("mkblk", dump_fan(mbw).substr(1));
+            iterate_block_norm(ebw, mbw, model_w);
+            emit("blk2" + dump_fan(mbw), "ok");
+            emit("fan" + dump_fan(model_w), "ok");
+            emit("iterblk", dump_fan(ebw).substr(1));
+            // ORACLE (fixed point): measured class sum 0 -> 0 (the factor is 0, or the model has no counts in this class);
+            // otherwise the factor itself, provided it is below the hard-wired 10000 (C20_class_ratio_fixed_point)
+            const float thr = mbw.find_max() / 10000.F;
+            for_canon(blk_w, [&](int ra, int a, int rb, int b) {
+              const float m = mbw(ra, a, rb, b), f = blk_w(ra, a, rb, b), e = ebw(ra, a, rb, b);
+              if (m < thr)
+                ++g_stats.wide_below_threshold;
+              if (m == 0)
+                oracle(e == 0.F, "fixed-point-block-wide-zero-class",
+                       wctx + str(" block pair (%d,%d,%d,%d): measured block sum 0 but iterate_block_norm returned %g", ra, a, rb, b % ntb, e));
+              else if (f < 10000.F)
+                oracle(close_rel(e, f, 4. * (2 * acpb_p * acpb_p * tcpb_p * tcpb_p + 3) * 5.97e-8), "fixed-point-block-wide",
+                       wctx + str(" block pair (%d,%d,%d,%d): factor %g became %g although data = block*model (measured block sum %g, largest %g)",
+                                  ra, a, rb, b % ntb, f, e, m, mbw.find_max()));
+              else
+                oracle(e == 0.F || close_rel(e, f, 1e-5), "block-wide-factor-above-10000",
+                       wctx + str(" block pair (%d,%d,%d,%d): factor %g >= 10000 must come back as itself or as 0, got %g", ra, a, rb, b % ntb, f, e));
+            });
+            if (big)
+              ++g_stats.wide_big;
+          }
+      }
+
+    if (tcpb_p >= 2)
+      {
+        auto geo_oracle = [&](bool ok, const std::string& kind, const std::string& text) {
+          if (geo_odd)
+            candidate(ok, KEY_GEO_ODD, "[" + kind + "] " + text);
+          else
+            oracle(ok, kind, text);
+        };
+        GeoData3D g0w(acpb_p, tcpb_p / 2, Rp, Np), mgw(acpb_p, tcpb_p / 2, Rp, Np), egw(acpb_p, tcpb_p / 2, Rp, Np);
+        for_geo(model_w, g0w, [&](int ra, int a, int rb, int b) { g0w(ra, a, rb, b) = wide_factor(); });
+        FanProjData d3w = model_w;
+        apply_geo_norm(d3w, g0w, true);
+        make_geo_data(mgw, d3w);
+        if (mgw.find_max() > 0)
+          {
+            ++g_stats.wide_geo;
+            emit(str("gdims %d %d %d %d", acpb_p, tcpb_p / 2, Rp, Np), "ok");
+            emit("geo" + dump_geo(model_w, g0w), "ok");
+            emit("fan" + dump_fan(model_w), "ok");
+            emit("appgeo 1", dump_fan(d3w).substr(1));
+            emit("fan" + dump_fan(d3w), "ok");
+            emit("mkgeo", dump_geo(model_w, mgw).substr(1));
+            iterate_geo_norm(egw, mgw, model_w);
+            emit("geo2" + dump_geo(model_w, mgw), "ok");
+            emit("fan" + dump_fan(model_w), "ok");
+            emit("itergeo", dump_geo(model_w, egw).substr(1));
+            // the ML estimate egw is a consistent parameter set: data generated from it must reproduce it
+            FanProjData d4w = model_w;
+            apply_geo_norm(d4w, egw, true);
+            GeoData3D mg2w(acpb_p, tcpb_p / 2, Rp, Np), eg2w(acpb_p, tcpb_p / 2, Rp, Np);
+            make_geo_data(mg2w, d4w);
+            if (mg2w.find_max() > 0)
+              {
+                emit("geo" + dump_geo(model_w, egw), "ok");
+                emit("appgeo 1", dump_fan(d4w).substr(1));
+                emit("fan" + dump_fan(d4w), "ok");
+                emit("mkgeo", dump_geo(model_w, mg2w).substr(1));
+                iterate_geo_norm(eg2w, mg2w, model_w);
+                emit("geo2" + dump_geo(model_w, mg2w), "ok");
+                emit("fan" + dump_fan(model_w), "ok");
+                emit("itergeo", dump_geo(model_w, eg2w).substr(1));
+                const float thr = mg2w.find_max() / 10000.F;
+                for_geo(model_w, egw, [&](int ra, int a, int rb, int b) {
+                  const float m = mg2w(ra, a, rb, b), f = egw(ra, a, rb, b), e = eg2w(ra, a, rb, b);
+                  if (m < thr)
+                    ++g_stats.wide_below_threshold;
+                  if (m == 0)
+                    geo_oracle(e == 0.F, "fixed-point-geo-wide-zero-class",
+                               wctx + str(" geometric factor (%d,%d,%d,%d): measured class sum 0 but iterate_geo_norm returned %g", ra, a, rb, b % Np, e));
+                  else
+                    geo_oracle(close_rel(e, f, 4. * (2 * 4 * nab * ntb + 6) * 5.97e-8), "fixed-point-geo-wide",
+                               wctx + str(" geometric factor (%d,%d,%d,%d): %g became %g although data = geo*model (measured class sum %g, largest %g)",
+                                          ra, a, rb, b % Np, f, e, m, mg2w.find_max()));
+                });
+              }
+          }
+      }
+  }
 }
 
 
@@ -1069,11 +1253,13 @@ run_detpair(vh::Rng& rng, const Cfg& c, bool thorough)
   const double u = 5.97e-8;
 
   // ---------------------------------------------------------------------------- projection data <-> detector pairs
+  // every segment and every axial position of the span-1 data (round-4 extension; before: 2-3 random axial positions per segment)
   for (int seg = 0; seg <= pdi->get_max_segment_num(); ++seg)
-    for (int rep = 0; rep < (thorough ? 3 : 2); ++rep)
+    for (int ax = pdi->get_min_axial_pos_num(seg); ax <= pdi->get_max_axial_pos_num(seg); ++ax)
       {
-        const int ax = rng.range(pdi->get_min_axial_pos_num(seg), pdi->get_max_axial_pos_num(seg));
         ++g_stats.dp_sinograms;
+        if (seg != 0)
+          ++g_stats.dp_sinograms_oblique;
         DetPairData dp;
         make_det_pair_data(dp, pd, seg, ax);
         const DetPairData& cdp = dp;
@@ -1108,9 +1294,9 @@ run_detpair(vh::Rng& rng, const Cfg& c, bool thorough)
                                v, tp, pos[v][tp], neg[v][tp], pos2[v][tp], neg2[v][tp]));
             }
         emit(op2, ans2);
-        { // ORACLE: no other sinogram is written
-          const int s2 = rng.range(pdi->get_min_segment_num(), pdi->get_max_segment_num());
-          const int ax2 = rng.range(pdi->get_min_axial_pos_num(s2), pdi->get_max_axial_pos_num(s2));
+        // ORACLE: no other sinogram is written (every other sinogram of the data)
+        for (int s2 = pdi->get_min_segment_num(); s2 <= pdi->get_max_segment_num(); ++s2)
+          for (int ax2 = pdi->get_min_axial_pos_num(s2); ax2 <= pdi->get_max_axial_pos_num(s2); ++ax2)
           if (!((s2 == seg || s2 == -seg) && ax2 == ax))
             {
               const Sinogram<float> other = pd2.get_sinogram(ax2, s2);
@@ -1122,7 +1308,6 @@ run_detpair(vh::Rng& rng, const Cfg& c, bool thorough)
               oracle(untouched, "dp-set-other-sinogram",
                      ctx + str(" set_det_pair_data(segment %d, axial pos %d) changed sinogram (segment %d, axial pos %d)", seg, ax, s2, ax2));
             }
-        }
         // ORACLE: each entry is the value of the bin that the geometry assigns to that detector pair
         int r1 = 0, r2 = 0;
         cyl.get_ring_pair_for_segment_axial_pos_num(r1, r2, seg, ax);
@@ -1339,6 +1524,123 @@ run_detpair(vh::Rng& rng, const Cfg& c, bool thorough)
           oracle(close_rel(eg[i][bb % N], g0[i][bb % N], 4. * (2 * (2 * nb + 3) + 4) * u), "dp-fixed-point-geo",
                  ctx + str(" geometric factor [%d][%d]: %g became %g although data = geo*model", i, bb % N, g0[i][bb % N], eg[i][bb % N]));
     }
+
+  // ---------------------------------------------------------------------------- wide dynamic range (round-4 extension)
+  // as in run_config: compact source (model * 2^-(step*|tangential offset|), optionally 0 at the fan edge), factors k/8 * 2^-e,
+  // e = 0..26, some exactly 0, sometimes one block factor >= 16384 on a class far below find_max()/10000
+  {
+    ++g_stats.dp_wide;
+    const int step = std::max(1, (rng.range(0, 2) == 0 ? 18 : rng.coin() ? 26 : 40) / std::max(h, 1));
+    const bool zero_edge = h >= 1 && rng.range(0, 2) == 0;
+    DetPairData model_w = model;
+    for_dp(cmodel, [&](int a, int b) {
+      const int o = std::abs(b - a - N / 2);
+      model_w(a, b) = (zero_edge && o == h) ? 0.F : std::ldexp(cmodel(a, b), -(o * step));
+    });
+    auto wide_factor = [&]() -> float {
+      if (rng.range(0, 7) == 0)
+        return 0.F;
+      return std::ldexp(rng.range(4, 12) / 8.F, -rng.range(0, 26));
+    };
+    const std::string wctx = ctx + str(" [wide: model * 2^-(%d*|tang offset|)%s]", step, zero_edge ? ", 0 at the fan edge" : "");
+    {
+      BlockData blk(IndexRange2D(nb, nb)), mb(IndexRange2D(nb, nb)), eb(IndexRange2D(nb, nb)), mm(IndexRange2D(nb, nb));
+      for (int i = 0; i < nb; ++i)
+        for (int j = 0; j < nb; ++j)
+          blk[i][j] = wide_factor();
+      DetPairData d2 = model_w;
+      apply_block_norm(d2, blk, true);
+      make_block_data(mb, d2);
+      make_block_data(mm, model_w);
+      if (mb.find_max() > 0 && rng.coin())
+        {
+          const float mmx = mm.find_max();
+          std::vector<std::pair<int, int>> low, top;
+          for (int i = 0; i < nb; ++i)
+            for (int j = 0; j < nb; ++j)
+              if (mm[i][j] == mmx)
+                top.push_back(std::make_pair(i, j));
+              else if (mm[i][j] > 0 && mm[i][j] * 49152.F * 4.0e4F < mmx * 0.5F)
+                low.push_back(std::make_pair(i, j));
+          if (!low.empty() && !top.empty())
+            {
+              const std::pair<int, int> q = low[rng.range(0, static_cast<int>(low.size()) - 1)];
+              blk[top[0].first][top[0].second] = rng.range(4, 12) / 8.F;
+              blk[q.first][q.second] = rng.range(4, 12) / 8.F * 32768.F;
+              d2 = model_w;
+              apply_block_norm(d2, blk, true);
+              make_block_data(mb, d2);
+              ++g_stats.wide_big;
+            }
+        }
+      if (mb.find_max() > 0)
+        {
+          emit(str("dpblk %d", nb) + dump_tab(blk), "ok");
+          emit("dpfan" + dump_dp(model_w), "ok");
+          emit("dpappblk 1", dump_dp(d2).substr(1));
+          emit("dpfan" + dump_dp(d2), "ok");
+          emit("dpmkblk", dump_tab(mb).substr(1));
+          iterate_block_norm(eb, mb, model_w);
+          emit("dpblk2" + dump_tab(mb), "ok");
+          emit("dpfan" + dump_dp(model_w), "ok");
+          emit("dpiterblk", dump_tab(eb).substr(1));
+          const float thr = mb.find_max() / 10000.F;
+          for (int i = 0; i < nb; ++i)
+            for (int j = 0; j < nb; ++j)
+              {
+                if (mb[i][j] < thr)
+                  ++g_stats.wide_below_threshold;
+                if (mb[i][j] == 0)
+                  oracle(eb[i][j] == 0.F, "dp-fixed-point-block-wide-zero-class",
+                         wctx + str(" block pair (%d,%d): measured block sum 0 but iterate_block_norm returned %g", i, j, eb[i][j]));
+                else if (blk[i][j] < 10000.F)
+                  oracle(close_rel(eb[i][j], blk[i][j], 4. * (2 * cpb * cpb + 6) * u), "dp-fixed-point-block-wide",
+                         wctx + str(" block pair (%d,%d): factor %g became %g although data = block*model (measured block sum %g, largest %g)", i, j,
+                                    blk[i][j], eb[i][j], mb[i][j], mb.find_max()));
+                else
+                  oracle(eb[i][j] == 0.F || close_rel(eb[i][j], blk[i][j], 1e-5), "dp-block-wide-factor-above-10000",
+                         wctx + str(" block pair (%d,%d): factor %g >= 10000 must come back as itself or as 0, got %g", i, j, blk[i][j], eb[i][j]));
+              }
+        }
+    }
+    if (cpb % 2 == 0 && cpb >= 2)
+      {
+        const int half = cpb / 2;
+        GeoData g0(IndexRange2D(half, N)), mg(IndexRange2D(half, N)), eg(IndexRange2D(half, N));
+        for (int i = 0; i < half; ++i)
+          for (int j = 0; j < N; ++j)
+            g0[i][j] = wide_factor();
+        DetPairData d3 = model_w;
+        apply_geo_norm(d3, g0, true);
+        make_geo_data(mg, d3);
+        if (mg.find_max() > 0)
+          {
+            emit(str("dpgeo %d", half) + dump_tab(g0), "ok");
+            emit("dpfan" + dump_dp(model_w), "ok");
+            emit("dpappgeo 1", dump_dp(d3).substr(1));
+            emit("dpfan" + dump_dp(d3), "ok");
+            emit("dpmkgeo", dump_tab(mg).substr(1));
+            iterate_geo_norm(eg, mg, model_w);
+            emit("dpgeo2" + dump_tab(mg), "ok");
+            emit("dpfan" + dump_dp(model_w), "ok");
+            emit("dpitergeo", dump_tab(eg).substr(1));
+            const float thr = mg.find_max() / 10000.F;
+            for (int i = 0; i < half; ++i)
+              for (int j = 0; j < N; ++j)
+                {
+                  if (mg[i][j] < thr)
+                    ++g_stats.wide_below_threshold;
+                  if (mg[i][j] == 0)
+                    oracle(eg[i][j] == 0.F, "dp-fixed-point-geo-wide-zero-class",
+                           wctx + str(" geometric factor [%d][%d]: measured class sum 0 but iterate_geo_norm returned %g", i, j, eg[i][j]));
+                  else
+                    oracle(close_rel(eg[i][j], g0[i][j], 4. * (2 * (2 * nb + 3) + 4) * u), "dp-fixed-point-geo-wide",
+                           wctx + str(" geometric factor [%d][%d]: %g became %g although data = geo*model (measured class sum %g, largest %g)", i, j,
+                                      g0[i][j], eg[i][j], mg[i][j], mg.find_max()));
+                }
+          }
+      }
+  }
 }
 
 // ---------------------------------------------------------------------------------------------------------------------
@@ -1874,10 +2176,13 @@ main(int argc, char** argv)
   std::fprintf(g_orc,
                "INFO configs=%ld with_gaps=%ld window_bins=%ld fan_entries=%ld block_same_block_in_fan=%ld geo_one_crystal_per_block=%ld "
                "geo_odd_crystals_per_block=%ld kl_runs=%ld detpair_configs=%ld detpair_sinogram_pairs=%ld detpair_entries=%ld "
-               "multiply_crystal_factors_configs=%ld multiply_crystal_factors_bins=%ld ml_estimate_runs=%ld\n",
+               "multiply_crystal_factors_configs=%ld multiply_crystal_factors_bins=%ld ml_estimate_runs=%ld "
+               "detpair_oblique_sinogram_pairs=%ld wide_range_configs=%ld wide_range_block_runs=%ld wide_range_geo_runs=%ld "
+               "wide_range_detpair_configs=%ld wide_range_classes_below_max_over_10000=%ld wide_range_factor_above_10000_runs=%ld\n",
                g_stats.configs, g_stats.gap_configs, g_stats.bins, g_stats.entries, g_stats.block_same_block, g_stats.geo_skipped,
                g_stats.geo_odd, g_stats.kl_runs, g_stats.dp_configs, g_stats.dp_sinograms, g_stats.dp_entries, g_stats.mcf_configs,
-               g_stats.mcf_bins, g_stats.ml_runs);
+               g_stats.mcf_bins, g_stats.ml_runs, g_stats.dp_sinograms_oblique, g_stats.wide_configs, g_stats.wide_block, g_stats.wide_geo,
+               g_stats.dp_wide, g_stats.wide_below_threshold, g_stats.wide_big);
   std::fprintf(g_orc, "ORACLE-DONE checks=%ld fails=%ld candidates=%ld\n", g_checks, g_fails, g_candidates);
   std::fclose(g_ops);
   std::fclose(g_out);
